@@ -1,0 +1,13 @@
+//go:build verif
+
+package connection
+
+// VerifHook, when set by a verification harness, is called at named points
+// inside the package. It is compiled in only with the "verif" build tag.
+var VerifHook func(point string, arg interface{})
+
+func verifAt(point string, arg interface{}) {
+	if h := VerifHook; h != nil {
+		h(point, arg)
+	}
+}
